@@ -310,6 +310,11 @@ void ep4_mul_sim_joint(ep4_t r, const ep4_t p, const bn_t k, const ep4_t q,
 	int i, u_i, offset;
 	int8_t jsf[4 * (RLC_FP_BITS + 1)];
 	size_t l;
+	bn_t n, _k, _m;
+
+	bn_null(n);
+	bn_null(_k);
+	bn_null(_m);
 
 	if (bn_is_zero(k) || ep4_is_infty(p)) {
 		ep4_mul(r, q, m);
@@ -321,6 +326,15 @@ void ep4_mul_sim_joint(ep4_t r, const ep4_t p, const bn_t k, const ep4_t q,
 	}
 
 	RLC_TRY {
+		bn_new(n);
+		bn_new(_k);
+		bn_new(_m);
+
+		/* The recoding buffer only covers twice the field size. */
+		ep4_curve_get_ord(n);
+		bn_mod(_k, k, n);
+		bn_mod(_m, m, n);
+
 		for (i = 0; i < 5; i++) {
 			ep4_null(t[i]);
 			ep4_new(t[i]);
@@ -328,11 +342,11 @@ void ep4_mul_sim_joint(ep4_t r, const ep4_t p, const bn_t k, const ep4_t q,
 
 		ep4_set_infty(t[0]);
 		ep4_copy(t[1], q);
-		if (bn_sign(m) == RLC_NEG) {
+		if (bn_sign(_m) == RLC_NEG) {
 			ep4_neg(t[1], t[1]);
 		}
 		ep4_copy(t[2], p);
-		if (bn_sign(k) == RLC_NEG) {
+		if (bn_sign(_k) == RLC_NEG) {
 			ep4_neg(t[2], t[2]);
 		}
 		ep4_add(t[3], t[2], t[1]);
@@ -342,11 +356,11 @@ void ep4_mul_sim_joint(ep4_t r, const ep4_t p, const bn_t k, const ep4_t q,
 #endif
 
 		l = 4 * (RLC_FP_BITS + 1);
-		bn_rec_jsf(jsf, &l, k, m);
+		bn_rec_jsf(jsf, &l, _k, _m);
 
 		ep4_set_infty(r);
 
-		offset = RLC_MAX(bn_bits(k), bn_bits(m)) + 1;
+		offset = RLC_MAX(bn_bits(_k), bn_bits(_m)) + 1;
 		for (i = l - 1; i >= 0; i--) {
 			ep4_dbl(r, r);
 			if (jsf[i] != 0 && jsf[i] == -jsf[i + offset]) {
@@ -371,6 +385,9 @@ void ep4_mul_sim_joint(ep4_t r, const ep4_t p, const bn_t k, const ep4_t q,
 		RLC_THROW(ERR_CAUGHT);
 	}
 	RLC_FINALLY {
+		bn_free(n);
+		bn_free(_k);
+		bn_free(_m);
 		for (i = 0; i < 5; i++) {
 			ep4_free(t[i]);
 		}
